@@ -6,17 +6,9 @@ import os
 VERIF = os.path.dirname(os.path.dirname(os.path.abspath(__file__)))
 ALL = ["C%02d" % i for i in range(1, 21)]
 
-# property -> (technique, level text, level note, design section)
-CHECKS = {
- "C10": ("TLC model checking of spec/TaxonNamespace.tla (all operation histories to a depth bound) + replay of every model transition on real TaxonNamespace objects + TLC trace validation of all real executions (Trace_TaxonNamespace)",
-         "TLC explores every history of namespace operations up to the bound and checks bit stability/injectivity/no-reuse, mask round trips, rendering and lookup exactness on the model; each model transition is then executed on the real class and every logged real call (plus seeded random histories on larger namespaces) is validated by TLC against the same operators. Right level: the property is a state-machine invariant over histories.",
-         "Trusted: TLC, the projection of TaxonNamespace objects to the abstract state (harness/props/C10.py), Python's str.lower on the label alphabet mirrored by LowerOf.",
-         "DESIGN.md section 4 C10"),
- "C15": ("TLC model checking of spec/Traversal.tla on every ordered tree up to a node bound + replay of TLC's dumped tree domain through every iterator of Tree/Node + TLC trace validation (Trace_Traversal)",
-         "TLC checks that the traversal definitions are sound (permutation of the subtree, parent/child and sibling order, bracket matching) on all ordered trees up to the bound and dumps that domain; each tree is built for real, every node/edge iterator and the callback walk are run from every start node under filters including falsy-returning ones, and TLC judges every yielded sequence against the definition evaluated on the raw-pointer projection. Exhaustive for trees up to the bound, random beyond.",
-         "Trusted: TLC, the raw-pointer projection (vlib/proj.py, uses no dendropy iterator), the tree builder (Node.add_child).",
-         "DESIGN.md section 4 C15"),
-}
+# property -> technique / level text / level note / design section: tools/checks.json (edit with tools/register.py)
+CHECKS = dict((k, (v["technique"], v["text"], v["note"], v["ref"]))
+              for k, v in json.load(open(os.path.join(VERIF, "tools", "checks.json"))).items())
 
 def main():
     checks = []
